@@ -33,14 +33,14 @@ def _digest_job(args):
             plan = m.draw_plan(kernel.derive_rng(seed, "E3", prop, i), prop)
             obs = m.execute(plan)
             log = m.event_log(obs)
-            outs.append({"i": i, "digest": log.run_digest(), "events": log.events})
+            outs.append({"i": i, "digest": log.run_digest(), "events": log.events, "raw": log.raw})
     elif engine == "E1":
         from . import apisim as m
 
         for i in range(start, start + count):
             plan = m.draw_plan(kernel.derive_rng(seed, "E1", prop, i), prop, methods=args.get("methods"))
             ctx = m.execute(plan)
-            outs.append({"i": i, "digest": ctx.log.run_digest(), "events": ctx.log.events})
+            outs.append({"i": i, "digest": ctx.log.run_digest(), "events": ctx.log.events, "raw": ctx.log.raw})
     elif engine == "E2":
         from . import clisim as m
 
@@ -111,6 +111,12 @@ def determinism(argv) -> int:
             mm = 0
             for k in sorted(a, key=int):
                 total += 1
+                if k in b and a[k]["digest"] != b[k]["digest"] and "raw" in a[k] and "raw" in b[k]:
+                    # digests are of 8-digit roundings: decide on the unrounded outcomes at the comparison tolerance
+                    ea, eb = a[k]["events"], b[k]["events"]
+                    same_shape = len(ea) == len(eb) and all(x[:3] == y[:3] for x, y in zip(ea, eb))
+                    if same_shape and kernel.close(a[k]["raw"], b[k]["raw"])[0]:
+                        continue
                 if k not in b or a[k]["digest"] != b[k]["digest"]:
                     mm += 1
                     if mm <= 3:
